@@ -87,6 +87,71 @@ fn digests(restricted: bool, kmax: usize) -> BTreeMap<String, String> {
             map.lock().unwrap().insert(format!("import+reissue | {}", l), v);
         }
     }
+    // parameters whose key-identifier method (and everything else) nobody set: what the constructors, the request parser and
+    // the import hand out must be the same in every build that has a back end (the crypto-less build has no digest and
+    // documents an empty pre-specified identifier instead, so these rows exist in the full tables only)
+    #[cfg(feature = "crypto")]
+    if !restricted {
+        let zoo = load_zoo();
+        let z = zoo.iter().find(|z| z.kind == KeyKind::Ed25519 && z.format == KeyFormat::Pkcs8 && z.name.contains("_1")).unwrap();
+        let row = |name: &str, v: String| {
+            map.lock().unwrap().insert(format!("defaults | {}", name), v);
+        };
+        let hexs = |b: &[u8]| b.iter().map(|x| format!("{:02x}", x)).collect::<String>();
+        match rc_load(z, Alg::Ed25519) {
+            Err(e) => row("key", format!("ERR {:?}", e)),
+            Ok(kp) => {
+                let show = |r: Result<Result<rcgen::Certificate, rcgen::Error>, String>| match r {
+                    Ok(Ok(c)) => format!("{:?} -> key_identifier {} tbs {:016x}", c.params().key_identifier_method, hexs(&c.key_identifier()), fnv(&refmodel::x509::decode_cert(c.der()).value.map(|a| a.tbs_raw).unwrap_or_default())),
+                    Ok(Err(e)) => format!("ERR {:?}", e),
+                    Err(p) => format!("PANIC {}", p.split(" at ").next().unwrap_or("")),
+                };
+                let fix = |mut p: rcgen::CertificateParams, ca: rcgen::IsCa| {
+                    p.serial_number = Some(rcgen::SerialNumber::from_slice(&[0x16]));
+                    p.is_ca = ca;
+                    p
+                };
+                let ca_params = fix(rcgen::CertificateParams::default(), rcgen::IsCa::Ca(rcgen::BasicConstraints::Unconstrained));
+                row("CertificateParams::default() as CA", show(guarded(|| ca_params.clone().self_signed(&kp))));
+                row("CertificateParams::default() as explicit end entity", show(guarded(|| fix(rcgen::CertificateParams::default(), rcgen::IsCa::ExplicitNoCa).self_signed(&kp))));
+                row("CertificateParams::new(names) as CA", show(guarded(|| fix(rcgen::CertificateParams::new(vec!["a.example".to_string(), "192.0.2.1".to_string()])?, rcgen::IsCa::Ca(rcgen::BasicConstraints::Constrained(1))).self_signed(&kp))));
+                if let Ok(Ok(ca)) = guarded(|| ca_params.clone().self_signed(&kp)) {
+                    let mut leaf = fix(rcgen::CertificateParams::default(), rcgen::IsCa::NoCa);
+                    leaf.use_authority_key_identifier_extension = true;
+                    row("leaf with AKI under the default CA", show(guarded(|| leaf.clone().signed_by(&kp, &ca, &kp))));
+                    // through a request: serialize_request -> from_der -> signed_by
+                    row(
+                        "request from default parameters, parsed and issued under the default CA",
+                        show(guarded(|| {
+                            let csr = rcgen::CertificateParams::default().serialize_request(&kp)?;
+                            let mut parsed = rcgen::CertificateSigningRequestParams::from_der(csr.der())?;
+                            parsed.params.serial_number = Some(rcgen::SerialNumber::from_slice(&[0x17]));
+                            parsed.params.is_ca = rcgen::IsCa::ExplicitNoCa;
+                            parsed.params.use_authority_key_identifier_extension = true;
+                            parsed.signed_by(&ca, &kp)
+                        })),
+                    );
+                    // a revocation list with default-derived issuer identifier
+                    let crl = rcgen::CertificateRevocationListParams {
+                        this_update: ca.params().not_before,
+                        next_update: ca.params().not_after,
+                        crl_number: rcgen::SerialNumber::from_slice(&[1]),
+                        issuing_distribution_point: None,
+                        revoked_certs: vec![],
+                        key_identifier_method: rcgen::CertificateParams::default().key_identifier_method,
+                    };
+                    row(
+                        "revocation list with the default method under the default CA",
+                        match guarded(|| crl.signed_by(&ca, &kp)) {
+                            Ok(Ok(c)) => format!("tbs {:016x}", fnv(&refmodel::x509::decode_crl(c.der()).value.map(|a| a.tbs_raw).unwrap_or_default())),
+                            Ok(Err(e)) => format!("ERR {:?}", e),
+                            Err(p) => format!("PANIC {}", p.split(" at ").next().unwrap_or("")),
+                        },
+                    );
+                }
+            }
+        }
+    }
     // CSRs and CRLs
     let cs = super::c07::csr_space(false);
     let raw = fake_pub(Alg::EcP256, 3);
